@@ -83,6 +83,12 @@ _STORES = [
     ('t = a.copy()\nt *= b\nr = t', (3, 2, 2), (3, 2, 1)),
     ('t = a * 1e-8\nt[np.isclose(t, 0)] = 0\nr = t * 1e8', (3, 2, 2), None),
     ('t = a.copy()\nt[a > b] = 7.5\nr = t', (3, 2), (3, 2)),
+    # np.asarray does not copy an array of the requested type (a store through the result is seen in the argument) ...
+    ('t = a.copy()\nw = np.asarray(t, dtype=np.float64)\nw[0] = 7.0\nr = t', (3, 2), None),
+    ('t = a.copy()\nw = np.asarray(np.expand_dims(t, axis=-1), dtype=np.float64)\nnp.divide(w, 2.0, out=w)\nr = t', (3, 2), None),
+    # ... np.array and a converting asarray do
+    ('t = a.copy()\nw = np.array(t, dtype=np.float64)\nw[0] = 7.0\nr = t', (3, 2), None),
+    ('t = a.astype(int)\nw = np.asarray(t, dtype=np.float64)\nw[0] = 7.0\nr = t', (3, 2), None),
     # stores into integer arrays truncate towards zero
     ('t = a.astype(int)\nt[0] = b[0]\nr = t', (3, 2), (3, 2)),
     ('t = (a.astype(int) / 2)\nt[1:] += np.cumsum(a.astype(int), axis=0)[:-1]\nr = t', (4, 2), None),
